@@ -180,7 +180,7 @@ impl Iterator for ManiaGradualDifficulty {
             )
             .skip(self.idx.saturating_sub(1));
 
-        let mut take = cmp::min(n, self.len().saturating_sub(1));
+        let mut take = cmp::min(n, self.len());
 
         // The first note has no difficulty object
         if self.idx == 0 && take > 0 {
